@@ -148,6 +148,20 @@ def refute (s : State) (m : Nat) (newInc : Nat) : State × Bool :=
     else (s, false)
   | none => (s, false)
 
+/-- NOT the code: `refute` with the "nothing to do" fast path of `mark_healthy` copied in — a
+    member that is currently recorded Healthy is left alone, also when the announced incarnation
+    is higher than the recorded one ("there is no suspicion to refute").  The incarnation the
+    member announced is then dropped at every replica that has not (yet) seen the suspicion, and
+    old news about the previous incarnation is accepted afterwards.  Kept only for
+    `refuteUnlessHealthy_witness`. -/
+def refuteUnlessHealthy (s : State) (m : Nat) (newInc : Nat) : State × Bool :=
+  match s.regs m with
+  | some e =>
+    if newInc > e.inc ∧ e.health ≠ .healthy then
+      (⟨setReg s.regs m ⟨.healthy, s.clock + 1, newInc⟩, s.clock + 1⟩, true)
+    else (s, false)
+  | none => (s, false)
+
 /-- `mark_healthy` -/
 def markHealthy (s : State) (m : Nat) : State × Bool :=
   match s.regs m with
